@@ -109,7 +109,7 @@ func (p *proc) start() error {
 		return err
 	}
 	cmd := exec.Command(os.Args[0], "C09", "-out", dir)
-	cmd.Env = append(os.Environ(), workerEnv+"=1", "GOMEMLIMIT=3GiB", "GOTRACEBACK=single")
+	cmd.Env = append(os.Environ(), workerEnv+"=1", "GOMEMLIMIT=3GiB", "GOTRACEBACK=single", "GOMAXPROCS=4")
 	in, err := cmd.StdinPipe()
 	if err != nil {
 		return err
@@ -120,6 +120,9 @@ func (p *proc) start() error {
 	}
 	p.stderr = &bytes.Buffer{}
 	cmd.Stderr = p.stderr
+	if os.Getenv("VERIFH_C09_TIMING") != "" {
+		cmd.Stderr = os.Stderr
+	}
 	if err := cmd.Start(); err != nil {
 		return err
 	}
@@ -458,12 +461,31 @@ func unsendable(rng *rand.Rand) []*In {
 	}
 }
 
+// huge: thousands of objects of each kind (the upper end of the property's quantifier).
+func huge(o *hx.Opts) []*In {
+	out := []*In{
+		mk("huge", "3000 tiny pods + 3000 tiny containers", run1(3000, tiny), run1(3000, tiny)),
+		mk("huge", "3000 pods of 1KB + 3000 containers of 1KB", run1(3000, kb), run1(3000, kb)),
+		mk("huge", "3000 tiny pods + 400 containers of 100KB", run1(3000, tiny), run1(400, kb100)),
+	}
+	if o.Thorough() {
+		out = append(out,
+			mk("huge", "3000 pods of 1KB + 3000 containers of 100KB (300 MB)", run1(3000, kb), run1(3000, kb100)),
+			mk("huge", "2 pods + 3000 containers of 100KB", run1(2, tiny), run1(3000, kb100)),
+			mk("huge", "3000 pods of 100KB + 5 containers of 1MB", run1(3000, kb100), run1(5, mbDec)),
+			mk("huge", "100 containers of 1MB + 100 just under the limit", run1(7, kb), [][2]int{{100, mbDec}, {60, maxObjBytes}}),
+		)
+		out[len(out)-1].Updates = 3
+	}
+	return out
+}
+
 func generate(o *hx.Opts) []*In {
 	var out []*In
 	out = append(out, witnesses()...)
 	tab := fewLarge()
 	rng := o.Rand(1)
-	nFew := o.N(28, len(tab))
+	nFew := o.N(200, len(tab))
 	if nFew >= len(tab) {
 		out = append(out, tab...)
 	} else {
@@ -477,14 +499,15 @@ func generate(o *hx.Opts) []*In {
 			in.Slack = 5
 		}
 	}
-	budget := 40 << 20
+	budget := 48 << 20
 	if o.Thorough() {
-		budget = 120 << 20
+		budget = 96 << 20
 	}
 	r2 := o.Rand(2)
-	for i := 0; i < o.N(26, 400); i++ {
+	for i := 0; i < o.N(400, 2500); i++ {
 		out = append(out, random(r2, budget))
 	}
+	out = append(out, huge(o)...)
 	out = append(out, boundary(o.Rand(3))...)
 	out = append(out, handlers(o.Rand(4))...)
 	out = append(out, unsendable(o.Rand(5))...)
